@@ -214,6 +214,28 @@ def run_case(case):
                 counters["sorted_columns_checked"] = counters.get("sorted_columns_checked", 0) + 1
                 if not ok:
                     res["failures"].append({"kind": "column_reported_sorted_is_not", "column": name, "col_kind": kinds.get(name), **ctx0})
+        # ---- the statistics a handle exposes must follow the handle: repeated queries (with and without filters) and in-place edits
+        if s is not None and opts.get("file_scheme") == "hive" and len(pf.row_groups) >= 2:
+            def snap(h):
+                st = h.statistics
+                return {w: {c_: (None if v_ is None else [repr(x_) for x_ in v_]) for c_, v_ in st[w].items()} for w in ("min", "max", "null_count")}
+            try:
+                base = snap(pf)
+                first = next((c_ for c_, v_ in pf.statistics["min"].items() if v_ and v_[0] is not None and c_ in ("rid",)), None)
+                if first is not None:
+                    A.sorted_partitioned_columns(pf, filters=[(first, ">", pf.statistics["min"][first][0])])
+                    A.sorted_partitioned_columns(pf)
+                    if snap(pf) != base:
+                        res["failures"].append({"kind": "statistics_changed_by_a_query", **ctx0})
+                    counters["statistics_requeried"] = counters.get("statistics_requeried", 0) + 1
+                pf.remove_row_groups(pf.row_groups[0])
+                kept, fresh = snap(pf), snap(fastparquet.ParquetFile(path))
+                counters["statistics_after_edit_compared"] = counters.get("statistics_after_edit_compared", 0) + 1
+                if kept != fresh:
+                    res["failures"].append({"kind": "statistics_of_kept_handle_stale_after_edit", "kept_row_groups": len(pf.row_groups),
+                                            "kept_stat_len": max([len(v_) for v_ in kept["null_count"].values() if v_ is not None] or [0]), **ctx0})
+            except Exception as e:
+                res["failures"].append({"kind": "statistics_followup_raised", **ctx0, **C.exc_shape(e)})
         res["outcome"] = "ok"
         res["nontrivial"] = n_stat > 0
         f = c01.features(case, len(df))
@@ -262,4 +284,4 @@ def same_logical(want, got):
 
 
 def required(tier):
-    return {"chunks_with_minmax": 1500, "null_counts_compared": 1500, "api_stats_compared": 1500, "sorted_columns_checked": 50}
+    return {"chunks_with_minmax": 1500, "null_counts_compared": 1500, "api_stats_compared": 1500, "sorted_columns_checked": 50, "statistics_after_edit_compared": 20}
